@@ -256,6 +256,16 @@ def grammar(rng, name="f", max_bits=8):
         else:
             bools.extend([f"{n}[0]", f"{n}[1]"])
     body = []
+    if rng.random() < 0.3:
+        # a compile-time constant local whose name is an argument name elsewhere in the pool
+        free = [n for n in ARG_NAMES if n not in [a for a, _ in args]]
+        cn = rng.choice(free)
+        if rng.random() < 0.6 or not ints:
+            body.append(f"    {cn} = {rng.choice(['True', 'False'])}")
+            bools.append(cn)
+        else:
+            w = rng.choice(ints)[1]
+            body.append(f"    {cn} = {rng.randrange(2 ** w)}")
     nst = rng.randrange(0, 3)
     for s in range(nst):
         v = f"v{s}"
